@@ -57,8 +57,8 @@ BUDGET_S = 30.0          # wall-clock budget for one Schematic(obj): the termina
                          # quadratic and worse; an Or with 380 inputs needs 24 s and 72 000 symbols on the pinned tree)
 
 
-class Timeout(Exception):
-    pass
+class Timeout(BaseException):
+    """BaseException: placeAndRoute wraps some passes in `except Exception` and must not be able to swallow the budget"""
 
 
 def _alarm(sig, frm):
